@@ -777,6 +777,15 @@ pub fn check_c17(r: &Runner, ctx: &mut Ctx, l: &mut Local, rec: &CaseRec) -> Res
             rec,
         ));
     }
+    // TooManyHeaders means one more header line than the array holds was completed: every slot
+    // of the array has then been filled
+    if n.st == St::Err(ErrKind::TooManyHeaders) && written_slots_raw(&o).len() != cap {
+        return Err(viol(
+            "C17/too-many-headers-with-free-slots",
+            format!("Err(TooManyHeaders) with capacity {} although only {} slots were filled", cap, written_slots_raw(&o).len()),
+            rec,
+        ));
+    }
     if !o.canary_ok {
         return Err(viol("C17/write-outside-array", "bytes next to the caller's array were overwritten".into(), rec));
     }
@@ -953,7 +962,61 @@ fn all_opt_combos() -> Vec<(Entry, u8)> {
     v
 }
 
+fn literal_sweep<F>(r: &Runner, sub: &'static str, f: F)
+where
+    F: Fn(&Runner, &mut Ctx, &mut Local, &CaseRec) -> Result<(), Violation> + Sync,
+{
+    let mut offs = vec![0u64];
+    for (b, _) in LITERAL_BASES.iter() {
+        offs.push(offs.last().unwrap() + b.len() as u64 * 257);
+    }
+    r.par_enum("well-known literal messages (HTTP/2 preface, HEAD, CONNECT, 100-continue, ...): 256 values at every position + every prefix", *offs.last().unwrap(), |ctx, l, idx| {
+        let bi = offs.partition_point(|&o| o <= idx) - 1;
+        let (base, entry) = LITERAL_BASES[bi];
+        let x = idx - offs[bi];
+        let pos = (x / 257) as usize;
+        let v = x % 257;
+        let buf = if v == 256 {
+            base[..pos].to_vec()
+        } else {
+            let mut b = base.to_vec();
+            b[pos] = v as u8;
+            b
+        };
+        let rec = CaseRec::new(sub, entry, 0, 8, buf);
+        f(r, ctx, l, &rec)
+    });
+    dict_phase(r, sub, &|e: Entry, _c: u8| sub != "zerocopy" && sub != "hygiene" || e.kind() != Kind::Chunk, f);
+}
+
+fn any_entry(_e: Entry, _c: u8) -> bool {
+    true
+}
+fn msg_entry(e: Entry, _c: u8) -> bool {
+    e.kind() != Kind::Chunk
+}
+
 pub fn run_c02(r: &Runner) {
+    families_phase(r, "prefix", &any_entry, check_c02);
+    // extension direction: heads from the hygiene sweeps followed by 72 bytes of padding, so
+    // that the same head is scanned once inside the last <32 bytes of a buffer and once
+    // with plenty of bytes after it
+    {
+        let mut offs = vec![0u64];
+        for (b, _, _) in C05_BASES.iter() {
+            offs.push(offs.last().unwrap() + b.len() as u64 * 256);
+        }
+        r.par_enum("256 values at every position of 12 bases, each followed by 72 bytes of body: all prefixes (a head decided in a vector tail must be decided the same with bytes after it)", *offs.last().unwrap(), |ctx, l, idx| {
+            let bi = offs.partition_point(|&o| o <= idx) - 1;
+            let (base, entry, cfg) = C05_BASES[bi];
+            let x = idx - offs[bi];
+            let mut buf = base.to_vec();
+            buf[(x / 256) as usize] = (x % 256) as u8;
+            buf.extend_from_slice(&[b'x'; 72]);
+            let rec = CaseRec::new("prefix", entry, cfg, 8, buf);
+            check_c02(r, ctx, l, &rec)
+        });
+    }
     let g = GenSpec { kinds: &ALL_KINDS, profile: Profile { truncate: 16, mutate: 80, ..Profile::DEFAULT }, generous_cap: false, cfg_mask: 0x7f, cfg_entry_only: false };
     r.par_random(
         "G1 bases × all split points (each prefix in its own exact-length guard-page buffer)",
@@ -986,6 +1049,8 @@ pub fn run_c02(r: &Runner) {
 }
 
 pub fn run_c03(r: &Runner) {
+    families_phase(r, "frame", &any_entry, check_c03);
+    literal_sweep(r, "frame", check_c03);
     let g = GenSpec { kinds: &ALL_KINDS, profile: Profile { truncate: 40, ..Profile::DEFAULT }, generous_cap: false, cfg_mask: 0x7f, cfg_entry_only: false };
     r.par_random(
         "G1 messages with trailing bodies (bodies contain CRLFCRLF / header-looking lines)",
@@ -1006,6 +1071,24 @@ pub fn run_c03(r: &Runner) {
 }
 
 pub fn run_c04(r: &Runner) {
+    families_phase(r, "zerocopy", &msg_entry, check_c04);
+    literal_sweep(r, "zerocopy", check_c04);
+    {
+        // 256 values at every position of the hygiene bases
+        let mut offs = vec![0u64];
+        for (b, _, _) in C05_BASES.iter() {
+            offs.push(offs.last().unwrap() + b.len() as u64 * 256);
+        }
+        r.par_enum("256 values at every position of 12 bases (each header option exercised)", *offs.last().unwrap(), |ctx, l, idx| {
+            let bi = offs.partition_point(|&o| o <= idx) - 1;
+            let (base, entry, cfg) = C05_BASES[bi];
+            let x = idx - offs[bi];
+            let mut buf = base.to_vec();
+            buf[(x / 256) as usize] = (x % 256) as u8;
+            let rec = CaseRec::new("zerocopy", entry, cfg, 8, buf);
+            check_c04(r, ctx, l, &rec)
+        });
+    }
     let g = GenSpec { kinds: &MSG_KINDS, profile: Profile::DEFAULT, generous_cap: false, cfg_mask: 0x7f, cfg_entry_only: false };
     for be in usable_backends() {
         set_backend(be);
@@ -1034,6 +1117,8 @@ pub fn run_c04(r: &Runner) {
 }
 
 pub fn run_c05(r: &Runner) {
+    families_phase(r, "hygiene", &msg_entry, check_c05);
+    literal_sweep(r, "hygiene", check_c05);
     c05_sweeps(r);
     c05_lanes(r, if r.quick() { 70 } else { 140 });
     hdr_exhaustive(r, "header strings (11-symbol alphabet) × 8 contexts × option combos", if r.quick() { 5 } else { 6 }, &all_opt_combos(), "hygiene", check_c05);
@@ -1140,6 +1225,31 @@ pub fn run_c16(r: &Runner) {
 }
 
 pub fn run_c17(r: &Runner) {
+    families_phase(r, "storage", &msg_entry, check_c17);
+    // many header lines: k in a set around 256 and beyond, capacities around k and well above
+    {
+        const KS: [usize; 9] = [20, 64, 200, 255, 256, 257, 300, 1000, 4000];
+        const DC: [i64; 6] = [-1, 0, 1, 2, 50, 1000];
+        r.par_enum("k minimal header lines for k in {20,64,200,255,256,257,300,1000,4000} × capacity k+{-1,0,1,2,50,1000} × 9 entry points × {complete, truncated}", 9 * 6 * 9 * 2, |ctx, l, idx| {
+            let mut x = idx;
+            let trunc = x % 2 == 1;
+            x /= 2;
+            let entry = ALL_ENTRIES[(x % 9) as usize];
+            x /= 9;
+            let dc = DC[(x % 6) as usize];
+            let k = KS[(x / 6) as usize];
+            let mut block = Vec::with_capacity(k * 8);
+            for i in 0..k {
+                block.extend_from_slice(if i % 3 == 0 { b"a: b\r\n" } else { b"Cc:d\n" });
+            }
+            if !trunc {
+                block.extend_from_slice(b"\r\n");
+            }
+            let cap = (k as i64 + dc).max(0) as usize;
+            let rec = CaseRec::new("storage", entry, 0, cap, with_start_line(entry.kind(), &block));
+            check_c17(r, ctx, l, &rec)
+        });
+    }
     let g = GenSpec { kinds: &MSG_KINDS, profile: Profile { max_headers: 12, truncate: 40, ..Profile::DEFAULT }, generous_cap: false, cfg_mask: 0x7f, cfg_entry_only: false };
     r.par_random(
         "G1 blocks with k=0..12 header lines × capacity around k × all entry points × configs; sentinel/poison-prefilled arrays",
